@@ -70,7 +70,7 @@ impl Cx {
             let arc_stable = b2[0] == b[i] && b3[0] == b[i];
             if !(rc_stable && arc_stable) {
                 self.rep.bump("prog_unstable_across_processes");
-                self.rep.note(format!("program from {} gives different answers in different processes of the SAME build (not attributable to rc/arc): {:?}", origin, src.chars().take(200).collect::<String>()));
+                self.rep.note(format!("program from {} gives different answers in different processes of the SAME build (not attributable to rc/arc): {:?} rc={:?} arc={:?}", origin, src, [&a[i], &a2[0], &a3[0]], [&b[i], &b2[0], &b3[0]]));
                 continue;
             }
             self.d_fail += 1;
@@ -519,6 +519,14 @@ fn main() {
         std::process::exit(cx.rep.finish());
     }
 
+    if args.has_flag("--only-selftest") {
+        for _ in 0..20 {
+            let t = std::time::Instant::now();
+            selftest(&mut cx);
+            println!("selftest {:.1}s {}", t.elapsed().as_secs_f64(), cx.rep.extra["sensitivity_selftest"]);
+        }
+        return;
+    }
     // ---- 0. listed findings ---------------------------------------------------------------------
     let t_phase = std::time::Instant::now();
     let mut phase_s: Vec<(String, f64)> = vec![];
@@ -598,7 +606,9 @@ fn main() {
     }
     phase_s.push(("programs".into(), t_phase.elapsed().as_secs_f64()));
     // ---- 5. (K2) stress -----------------------------------------------------------------------
-    run_stress_phases(&mut cx);
+    if !args.has_flag("--skip-stress") {
+        run_stress_phases(&mut cx);
+    }
     phase_s.push(("stress".into(), t_phase.elapsed().as_secs_f64()));
     cx.rep.extra.insert("phase_end_s".into(), json!(phase_s));
 
@@ -633,7 +643,7 @@ fn selftest(cx: &mut Cx) {
     for (name, genf, plant, check) in plants {
         let mut detected = 0;
         let mut first: Option<String> = None;
-        let tries = 3;
+        let tries = 2;
         for _ in 0..tries {
             let mut r = cx.rng.fork();
             let mut s = genf(&mut r, 8, k);
@@ -668,11 +678,21 @@ fn selftest(cx: &mut Cx) {
 
 fn run_stress_phases(cx: &mut Cx) {
     let thorough = cx.thorough;
+    let t0 = std::time::Instant::now();
     selftest(cx);
+    let t_self = t0.elapsed().as_secs_f64();
     // small histories, exact linearizability check
-    let n_small = if thorough { 1500 } else { 120 };
-    let rounds = if thorough { 1500 } else { 500 };
+    let n_small = if thorough { 1500 } else { 90 };
+    let rounds = if thorough { 1500 } else { 300 };
+    // wall-clock budgets (spin barriers are slow on an oversubscribed machine): specs are taken in
+    // seed order, so a shorter run explores a prefix of a longer one
+    let (budget_small, budget_big) = if thorough { (330.0, 420.0) } else { (30.0, 40.0) };
+    let mut small_done = 0;
     for i in 0..n_small {
+        if i >= 12 && t0.elapsed().as_secs_f64() - t_self > budget_small {
+            break;
+        }
+        small_done += 1;
         let mut r = cx.rng.fork();
         let (n_threads, max_ops) = match i % 6 {
             0 | 1 => (2, 5),
@@ -683,9 +703,15 @@ fn run_stress_phases(cx: &mut Cx) {
         let s = gen_small(&mut r, i % 3 == 2, n_threads, max_ops, rounds);
         cx.stress_small(&s);
     }
+    let t_small = t0.elapsed().as_secs_f64();
     // large histories, counting invariants
-    let (k, reps) = if thorough { (3000, 12) } else { (1500, 3) };
+    let (k, reps) = if thorough { (3000, 12) } else { (1200, 2) };
+    let mut big_done = 0;
     for rep_i in 0..reps {
+        if rep_i >= 1 && t0.elapsed().as_secs_f64() - t_small > budget_big {
+            break;
+        }
+        big_done += 1;
         for n in [2usize, 4, 8] {
             let mut r = cx.rng.fork();
             let _ = rep_i;
@@ -701,6 +727,8 @@ fn run_stress_phases(cx: &mut Cx) {
             cx.stress_big(&s, check_slots);
         }
     }
+    cx.rep.extra.insert("stress_phase_end_s".into(), json!({"selftest": t_self, "small": t_small, "big": t0.elapsed().as_secs_f64(),
+        "small_specs_run": small_done, "small_specs_planned": n_small, "big_sets_run": big_done, "big_sets_planned": reps}));
 }
 
 /// Replay the witnesses of the listed findings (known: still failing → KNOWN-FINDING line;
